@@ -33,6 +33,13 @@ async def _handle(
         await send(None)
 
 
+def _is_disconnect(message: Any) -> bool:
+    return isinstance(message, dict) and message.get("type") in {
+        "http.disconnect",
+        "websocket.disconnect",
+    }
+
+
 class TaskGroup:
     def __init__(self, loop: asyncio.AbstractEventLoop) -> None:
         self._loop = loop
@@ -49,7 +56,6 @@ class TaskGroup:
         app_queue: asyncio.Queue[ASGIReceiveEvent] = asyncio.Queue(config.max_app_queue_size)
 
         finished = False
-        app_task: Optional[asyncio.Task] = None
 
         def _call_soon(func: Callable, *args: Any) -> Any:
             future = asyncio.run_coroutine_threadsafe(func(*args), self._loop)
@@ -68,18 +74,16 @@ class TaskGroup:
         async def _put(message: ASGIReceiveEvent) -> None:
             if finished:
                 return
-            elif asyncio.current_task() is app_task and (app_queue.full() or put_lock.locked()):
-                # Put from within one of the app's own sends (e.g. the
-                # disconnect that follows its final send), waiting for
-                # room here would be waiting for the app itself.
+            elif _is_disconnect(message) and (
+                app_queue.full() or put_lock.locked()
+            ):
+                # This is usually put from within one of the app's own
+                # sends (the disconnect that follows its final send, in
+                # whichever of its tasks), waiting for room here would
+                # be waiting for the app itself.
                 self.spawn(_ordered_put, message)
             else:
                 await _ordered_put(message)
-
-        async def _run(*args: Any) -> None:
-            nonlocal app_task
-            app_task = asyncio.current_task()
-            await _handle(*args)
 
         async def _send(message: Optional[ASGISendEvent]) -> None:
             nonlocal finished
@@ -94,7 +98,7 @@ class TaskGroup:
             await send(message)
 
         self.spawn(
-            _run,
+            _handle,
             app,
             config,
             scope,
